@@ -34,7 +34,11 @@ REQUIRED_THEOREMS = [
     "extract_time_range_sorted", "copy_apply_castfail", "valid_session_accepted", "valid_sessions_accepted",
     "valid_history_stored", "runBoth_of_allAccepted", "mapFrames_items", "mapFrames_getSlice", "mapFrames_viewGet",
     "read_world", "items_world", "slice_world", "view_field_world", "world_read_returns_appended",
+    # gap round (Props/C20Coll.lean)
+    "from_collection_world", "from_collection_read", "gatherAll_spec",
 ]
+# gap round: `from_collection` end to end (world level), `extract_time_range` boundaries on unsorted times
+EXTRA_PROP_FILES = ["C20Coll"]
 RULE = ("(1) adaptive random operation sequences of length 5-40 over newField/setField/newStore/setMode/"
         "start_writing/append/end_writing/clear/read/items/slice/extract_time_range/extract_field/view_field/"
         "copy/apply/from_fields/from_collection/direct frame writes, drawn from 8 field profiles (scalar, vector, "
